@@ -35,6 +35,7 @@ type SolveOpts struct {
 	Cross     bool // cross-check failures on the other solvers
 	Batch     int
 	KeepOb    string
+	ExpectFail func(name string) bool // obligations recorded as open findings: decided with a short budget
 }
 
 var solveSem chan struct{}
@@ -155,7 +156,12 @@ func solveFunc(key string, vs *VCSet, opts SolveOpts) float64 {
 			return
 		}
 		if !ob.Cover {
-			r := race(body, opts.TimeoutMs, add)
+			// obligations that were not proved as part of a batch get three times the budget
+			budget := opts.TimeoutMs * 3
+			if opts.ExpectFail != nil && opts.ExpectFail(ob.Name) {
+				budget = 3000
+			}
+			r := race(body, budget, add)
 			ob.Status, ob.Solver, ob.Secs = r.status, r.solver, r.secs
 			if r.status == "unsat" {
 				return
@@ -165,7 +171,7 @@ func solveFunc(key string, vs *VCSet, opts SolveOpts) float64 {
 				ob.Model = mo
 				return
 			}
-			if opts.Cross {
+			if opts.Cross && !(opts.ExpectFail != nil && opts.ExpectFail(ob.Name)) {
 				out, secs, err := runSolver(solvers[1], body, opts.TimeoutMs)
 				add(secs)
 				if err == nil && firstWord(out) == "unsat" {
